@@ -49,6 +49,20 @@ func CheckC05(sc *Scenario, res *Result) *Violation {
 		return nil
 	}
 	halfStop := time.Duration(sc.StopTimeoutMS) * time.Millisecond / 2
+	if sc.SlowItems {
+		// no verdict when an item needed more than half the stop timeout after its module's stop began (starvation)
+		stopT := map[string]int64{}
+		for _, e := range res.Events {
+			switch e.Kind {
+			case "stop-begin":
+				stopT[e.Mod] = e.T
+			case "work-end":
+				if t0, ok := stopT[e.Mod]; ok && time.Duration(e.T-t0) > halfStop {
+					return nil
+				}
+			}
+		}
+	}
 	for _, e := range res.Events {
 		switch e.Kind {
 		case "work-begin":
@@ -106,7 +120,7 @@ func CheckC05(sc *Scenario, res *Result) *Violation {
 						continue
 					}
 				}
-				if len(active) > 0 && time.Duration(e.DurNS) > halfStop {
+				if len(active) > 0 && !sc.SlowItems && time.Duration(e.DurNS) > halfStop {
 					return violf("C05-3-not-prompt", "%s took %s (stop timeout %d ms) although every work item returns within milliseconds of its cancellation", e.Info, time.Duration(e.DurNS), sc.StopTimeoutMS)
 				}
 				active = nil
@@ -146,6 +160,9 @@ func C05Stats(sc *Scenario, res *Result) (classes []string, runningAtStop int) {
 		}
 	}
 	seen := map[string]bool{}
+	if sc.SlowItems {
+		classes = append(classes, "slow_dependency_chain")
+	}
 	for _, m := range sc.Modules {
 		for _, w := range m.Work {
 			if w.Fail {
